@@ -1004,6 +1004,12 @@ func (c *Ctx) modPrefixes(con *Contract, callee *ssa.Function, cc *ssa.CallCommo
 	return []string{rootK + path}, true
 }
 
+// modPrefixesOwn maps a modifies entry of the function being verified to heap key prefixes (by static types).
+func (c *Ctx) modPrefixesOwn(fr *Frame, m string) ([]string, bool) {
+	cc := &ssa.CallCommon{Value: fr.Fn}
+	return c.modPrefixes(fr.Con, fr.Fn, cc, m)
+}
+
 func (c *Ctx) callIsPure(cc *ssa.CallCommon) bool {
 	w := newWriteSet()
 	c.scanCallWrites(cc, w, 0, map[*ssa.Function]bool{})
